@@ -9,7 +9,9 @@ CHECKS = {
          'each compared with an exact-rational reference model',
          'Every ordered pair of a pool of several hundred values (all (s,c,exp) encodings in a box as RealFloat and Float, '
          'specials, ints, floats, Fractions) is pushed through every operator on the real classes and compared with '
-         'an extended-real reference model; the space is finite and enumerated completely.',
+         'an extended-real reference model (incl. compare(), integer roundings, sign/zero predicates, digit accessors, '
+         'from_int/from_float/from_rational on every native value, and Floats carrying a context tag with digits inside '
+         'and outside that format); the space is finite and enumerated completely.',
          'Small-scope: significands <= 15 and exponents in [-3,3] plus a few wide/huge encodings; Python int/Fraction trusted.',
          '§5 C05'),
 }
@@ -29,7 +31,8 @@ CHECKS['C17'] = (
  'For every small configuration of every family that accepts random bits, k=1..3 (thorough 1..5), all 8 base modes and every '
  'operand on a fine grid inside selected gaps (subnormal range, binade boundaries, last gap, overflow gap), every one of the '
  '2^k draws is supplied by a scripted generator: each result must be one of the two neighbours, the count of away-roundings '
- 'must equal the exactly computed expectation, exactly one k-bit draw is consumed and the outcome is replay-deterministic.',
+ 'must equal the exactly computed expectation, exactly one k-bit draw is consumed and the outcome is replay-deterministic; '
+ 'each context is also reached by derivation through with_params (rm/num_randbits, rng) and enumerated the same way.',
  'Neighbours/overflow arms come from the C01 oracle; counts past the largest value are judged only where overflow goes to '
  'infinity; ASSERT mode not exercised; k <= 5.', '§5 C17')
 CHECKS['C10'] = (
